@@ -229,6 +229,10 @@ video_filter_configure(struct video_filter_s* self,
 enum DeviceStatusCode
 video_filter_start(struct video_filter_s* self)
 {
+    // Register the filter's reader before the source can write (see
+    // video_sink_start()): a channel without readers lets its writer wrap.
+    channel_read_map(&self->in, &self->reader);
+    channel_read_unmap(&self->in, &self->reader, 0);
     self->is_stopping = 0;
     self->is_running = 1;
     CHECK(
